@@ -102,6 +102,10 @@ func LoadBackendEnsureUser(env *Env) func(*cobra.Command, []string) error {
 
 		_, err = identity.GetUserIdentity(env.Repo)
 		if err != nil {
+			// the command (and its CloseBackend) doesn't run when the pre-run fails:
+			// release the repository lock here
+			_ = env.Backend.Close()
+			env.Backend = nil
 			return err
 		}
 
